@@ -20,7 +20,6 @@ package iqr
 
 //@ func (*IQR).Discard
 //@   assumed
-//@   requires iqr != nil
 //@   modifies ghost(iqr, "iqrN"), ghost(iqr, "iqrStart"), iqr.rrcs, iqr.isDirty
 //@   ensures implies(result == nil, numRecords <= old(ghost(iqr, "iqrN")) && ghost(iqr, "iqrN") == old(ghost(iqr, "iqrN")) - numRecords && ghost(iqr, "iqrStart") == old(ghost(iqr, "iqrStart")) + numRecords)
 //@   ensures implies(numRecords >= 0 && numRecords <= old(ghost(iqr, "iqrN")), result == nil)
@@ -29,7 +28,6 @@ package iqr
 
 //@ func (*IQR).DiscardAfter
 //@   assumed
-//@   requires iqr != nil
 //@   modifies ghost(iqr, "iqrN"), iqr.rrcs, iqr.isDirty
 //@   ensures implies(result == nil && numRecords <= uint64(old(ghost(iqr, "iqrN"))), uint64(ghost(iqr, "iqrN")) == numRecords)
 //@   ensures implies(result == nil && numRecords > uint64(old(ghost(iqr, "iqrN"))), ghost(iqr, "iqrN") == old(ghost(iqr, "iqrN")))
@@ -38,7 +36,6 @@ package iqr
 
 //@ func (*IQR).Append
 //@   assumed
-//@   requires iqr != nil
 //@   modifies ghost(iqr, "iqrN"), iqr.rrcs, iqr.isDirty
 //@   ensures implies(result == nil && other != nil, ghost(iqr, "iqrN") == old(ghost(iqr, "iqrN")) + ghost(other, "iqrN"))
 //@ end
